@@ -18,6 +18,7 @@ on the real pool with real threads.
 from __future__ import annotations
 
 import importlib
+import os
 import queue as realqueue
 import threading
 import time
@@ -117,7 +118,13 @@ class RecQ:
         self.log.append(dict(kind="put", q=self.name, val=val))
 
     def qsize(self):
-        raise Inconclusive("qsize() not modelled")
+        """A racy probe: the number of elements in the queue at that instant (decided by the composition)."""
+        v = self.e.fresh_int(f"qsize_{self.name}_{len(self.log)}", 0, None)
+        self.log.append(dict(kind="probe-size", q=self.name, var=v.z))
+        if len([x for x in self.log if x["kind"] in ("probe-size", "probe-empty")]) > 10:
+            self.log.append(dict(kind="LIMIT"))
+            raise Abort()
+        return v
 
     def empty(self):
         """A racy probe: its answer is whatever is true at that instant (decided by the composition)."""
@@ -180,7 +187,8 @@ def extract_worker(lp, nmax, fail):
             import time as _t
             lp.time = _t
         paths.append((log, dict(dec)))
-    st = explore(worker)
+    st = explore(worker, max_paths=int(os.environ.get("VT_POCOMP_MAX_PATHS", "4000")),
+                 deadline=time.time() + float(os.environ.get("VT_POCOMP_EXTRACT_S", "240")))
     return paths, st
 
 
@@ -252,7 +260,8 @@ def extract_consumer(lp, T, nmax, early, second_round=False):
         finally:
             lp.queue, lp.Collector.start = old_queue, old_start
         paths.append((log, dict(dec), [a for a in e.solver.assertions()]))
-    st = explore(consumer)
+    st = explore(consumer, max_paths=int(os.environ.get("VT_POCOMP_MAX_PATHS", "4000")),
+                 deadline=time.time() + float(os.environ.get("VT_POCOMP_EXTRACT_S", "240")))
     return paths, st
 
 
@@ -368,6 +377,8 @@ class Composition:
                         timeouts.append((ex, ts[t][k], ev["q"], t, None))
                     elif kind == "probe-empty":
                         timeouts.append((ex, ts[t][k], ev["q"].rstrip("'"), t, ev["result"]))
+                    elif kind == "probe-size":
+                        timeouts.append((ex, ts[t][k], ev["q"].rstrip("'"), t, ("size", ev["var"])))
                     elif kind == "put":
                         q, val = ev["q"], ev["val"]
                         if t == "c":
@@ -451,7 +462,9 @@ class Composition:
             else:
                 nput = z3.Sum([z3.If(z3.And(e2, t2 < tt), 1, 0) for e2, _, t2 in wputs] + [z3.IntVal(0)])
                 nget = z3.Sum([z3.If(z3.And(e2, t2 < tt), 1, 0) for e2, t2 in cgets_qr] + [z3.IntVal(0)])
-            if probe is None:
+            if isinstance(probe, tuple):
+                s.add(z3.Implies(ex, probe[1] == nput - nget))  # qsize() answers truthfully for that instant
+            elif probe is None:
                 s.add(z3.Implies(ex, nput == nget))  # a get may time out only while its queue is empty
             else:
                 s.add(z3.Implies(ex, (nput == nget) == probe))  # empty() answers truthfully for that instant
